@@ -4,6 +4,7 @@ import Dmn.Lemmas.RefParserSurface
 import Dmn.Lemmas.RefParserNeeded
 import Dmn.Lemmas.RefParserNeededExt
 import Dmn.Lemmas.RefParserDrops
+import Dmn.Lemmas.RefParserNeededDeepE
 import Dmn.Lemmas.RefParserLayout
 
 /-!
@@ -18,9 +19,11 @@ Obligations of this file (every `theorem` below is counted by `check`):
   `some`/`every`, function definitions, lists, contexts, intervals, unary tests, `in (…)`,
   named parameters): `parse_print_full_partial`, `parse_print_minimal_partial`,
   `parse_print_in_context` (generic in the table);
-* `paren_needed_partial`: a needed pair around an operand of the root cannot be dropped;
-  `paren_needed_root_in_drops`: that rendering is one of those the correspondence enumerates
-  (`drops`: one pair left out at any depth);
+* `paren_needed`: a rendering with one pair of the minimal printer left out — at ANY depth
+  (`drops .minimal t`, what the correspondence enumerates) — does not parse to the tree; from
+  `print_minimal_shortest`: no token list shorter than the minimal rendering parses to the tree;
+  `paren_needed_partial` (the pair around an operand of the root, via `printWithout`) and
+  `paren_needed_root_in_drops` (that rendering is a member of `drops`) are the earlier special case;
 * the same round trip through the lexer's `between` flag and the `( a . b . c` quirk of the
   tables: `parse_print_surface_partial` (+ two counterexamples, findings F19 and F22);
 * layout: `layout_gap_skipped`, `layout_irrelevant` (any number of comments in a gap),
@@ -170,14 +173,9 @@ of a function definition; operands between delimiters never need a pair).  When
 another tree, or not at all).  The operands and the other parts of `t` are arbitrary trees;
 the pair that is dropped is one around a direct operand of the root.
 
-FULL STATEMENT (not proved):
-theorem paren_needed (t : Tree) (ts : List Tok) (h : ts ∈ drops .minimal t) : parse ts ≠ some t
-— the same for a needed pair at any depth (`drops .minimal t`: every minimal rendering with one
-pair left out anywhere).  Missing: the step from an operand whose rendering lacks a pair deeper
-inside to its parent (the sub-parse of that operand returns some other tree `x`; that the
-parent then differs needs, per construct and operand position, the defining equation of the
-parser read backwards).  `paren_needed_root_in_drops` shows the root case is an instance; every
-member of `drops .minimal t` is checked by the correspondence (family `paren-removed`). -/
+The general statement — a needed pair at ANY depth — is `paren_needed` below; this theorem
+is its root case, stated through `printWithout` (`paren_needed_root_in_drops` shows that the
+rendering is a member of `drops .minimal t`). -/
 
 theorem paren_needed_partial (t : Tree) (i : Nat) (pos : Pos) (c : Tree)
     (h : operand t i = some (pos, c)) (hn : needsParens pos c = true) :
@@ -334,6 +332,48 @@ example : operand (.bin .mul (.bin .add (.atom (.name 0)) (.atom (.name 1))) (.a
       some (.binL .mul, .bin .add (.atom (.name 0)) (.atom (.name 1))) ∧
     needsParens (.binL .mul) (.bin .add (.atom (.name 0)) (.atom (.name 1))) = true :=
   ⟨rfl, by decide⟩
+
+/-! ### A needed pair at any depth
+
+`drops .minimal t` lists every minimal rendering of `t` with ONE printed pair of parentheses
+left out, at any depth (every pair the minimal printer writes is one `needsParens` demands).
+None of them parses to `t`.  The proof does not follow the dropped pair through its contexts;
+it shows that the minimal printer is minimal: whatever token list the reference parser reads as
+`t` has at least as many tokens as `print .minimal t` (`print_minimal_shortest`; by induction
+along the parser over ALL token lists, with a potential: what `parseExpr k` has consumed for a
+result covers the minimal rendering of the result plus the pair the result still owes — when
+it cannot stand bare under `k`, or absorbs the token it stopped at — and only a result read
+from `( … )` can owe one, having the two tokens to spare).  A rendering with one pair left out
+is two tokens shorter than the minimal rendering, so it is not read as `t`. -/
+
+/-- No token list shorter than the minimal rendering parses to the tree: every pair of
+parentheses the minimal printer writes is present in whatever is read as `t`. -/
+theorem print_minimal_shortest (ts : List Tok) (t : Tree) (h : parse ts = some t) :
+    (print .minimal t).length ≤ ts.length :=
+  parse_length h
+
+/-- A rendering with one needed pair of parentheses removed — anywhere in the tree — does not
+parse to the tree (it parses to a different tree, or not at all). -/
+theorem paren_needed (t : Tree) (ts : List Tok) (h : ts ∈ drops .minimal t) : parse ts ≠ some t :=
+  drops_not_parsed t ts h
+
+/-- `((a + b) * c) ** d`: `drops` leaves out the outer pair (`(a + b) * c ** d`) and the inner,
+deeper one (`(a + b * c) ** d`); the second is no operand of the root. -/
+example : drops .minimal (.bin .exp (.bin .mul (.bin .add (.atom (.name 0)) (.atom (.name 1))) (.atom (.name 2)))
+      (.atom (.name 3))) =
+    [[.lparen, .name 0, .plus, .name 1, .rparen, .mul, .name 2, .exp, .name 3],
+     [.lparen, .name 0, .plus, .name 1, .mul, .name 2, .rparen, .exp, .name 3]] := by
+  decide
+
+/-- The deeper one is read as another tree: `(a + (b * c)) ** d`. -/
+example : parse [.lparen, .name 0, .plus, .name 1, .mul, .name 2, .rparen, .exp, .name 3] =
+    some (.bin .exp (.bin .add (.atom (.name 0)) (.bin .mul (.atom (.name 1)) (.atom (.name 2))))
+      (.atom (.name 3))) := by
+  have h : print .minimal (.bin .exp (.bin .add (.atom (.name 0)) (.bin .mul (.atom (.name 1)) (.atom (.name 2))))
+      (.atom (.name 3))) =
+      [.lparen, .name 0, .plus, .name 1, .mul, .name 2, .rparen, .exp, .name 3] := by decide
+  rw [← h]
+  exact parse_print_minimal_partial _
 
 /-! ## What the lexer hands the grammar
 
